@@ -130,6 +130,10 @@ SHARDS.update({
 })
 
 SHARDS.update({
+    # palette registration (contracts/C17_palette.py): the first two choices are the None / text alternatives of the two
+    # high-colour fields (primary) and name x form of mono (mono-forms)
+    "urwid/display/common.py:BaseScreen.register_palette_entry": (4, 2),
+    "urwid/display/common.py:BaseScreen.register_palette_entry#mono-forms": (4, 2),
     # (three functions of ~20 s each on one core: two shards keep each below the critical path of the property's
     #  quick run without multiplying the shared prefix work)
     "urwid/widget/pile.py:Pile._get_fixed_rows_sizes": (2, 5),
